@@ -14,7 +14,12 @@ import (
 // C16: symbolic call histories against ONE runtime.VM. The reference state
 // machine (value of the global `g` as a term) lives in the harness.
 
-const verifHostProgram = "let g = 0;\n" +
+const verifHostProgram = "import trigger minute from triggers;\nimport templ FooFeature from templates;\n" +
+	"$Device = { b: int };\n" +
+	"impl FooFeature with { light } for $Device {\n  fn dim(self: $Device, percent: int) -> bool {\n    if self.b == percent { return false; }\n    self.b = percent;\n    true\n  }\n}\n" +
+	"event fn cb(elapsed: int) { println(elapsed); }\n" +
+	"fn reg(m: int) -> int {\n  trigger cb at minute(m);\n  return m + 1;\n}\n" +
+	"let g = 0;\n" +
 	"fn sub(a: int, b: int) -> int { return a - b; }\n" +
 	"fn inc(d: int) -> int { g += d; return g; }\n" +
 	"fn early(n: int) -> int {\n  for i in 0..3 {\n    try {\n      if i == n { return i * 10; }\n    } catch e { }\n  }\n  return 99;\n}\n" +
@@ -22,11 +27,12 @@ const verifHostProgram = "let g = 0;\n" +
 	"fn lst(a: int) -> [int] { return [a, a + 1]; }\n" +
 	"fn main() { }\n"
 
-var verifHostTargets = []string{"sub", "inc", "early", "boom", "lst"}
+var verifHostTargets = []string{"sub", "inc", "early", "boom", "lst", "dim", "reg"}
 
 type verifHostVM struct {
-	vm  runtime.VM
-	ctx *verifCtx
+	vm       runtime.VM
+	ctx      *verifCtx
+	triggers *[]string
 }
 
 func verifNewHostVM() verifHostVM {
@@ -45,7 +51,7 @@ func verifNewHostVM() verifHostVM {
 	ctx := newVerifCtx()
 	var cctx context.Context = ctx
 	var cancel context.CancelFunc = ctx.cancel
-	return verifHostVM{vm: runtime.NewVM(compiled, vvalue.Executor(exec), &cctx, &cancel, verifVmScope(nil), verifLimits), ctx: ctx}
+	return verifHostVM{vm: runtime.NewVM(compiled, vvalue.Executor(exec), &cctx, &cancel, verifVmScope(nil), verifLimits), ctx: ctx, triggers: &triggers}
 }
 
 func verifIntParam(name string) runtime.FunctionInvocationSignatureParam {
@@ -56,6 +62,8 @@ func VerifHarness_HostCalls() {
 	H := errors.VerifParam("H", 2)
 	h := verifNewHostVM()
 	g := int64(0) // reference value of the global
+	dev := int64(0) // reference value of the singleton's field
+	nTrig := 0      // reference number of registered triggers
 	failed := false
 	for step := 0; step < H; step++ {
 		ti := errors.VerifNdIntRange(fmt.Sprintf("target%d", step), 0, len(verifHostTargets)-1)
@@ -75,6 +83,11 @@ func VerifHarness_HostCalls() {
 			inv.FunctionSignature.Params[0].Ident = "n"
 		case "lst":
 			inv.FunctionSignature.ReturnType = ast.NewListType(ast.NewIntType(errors.Span{}), errors.Span{})
+		case "dim":
+			inv.FunctionSignature.Params[0].Ident = "percent"
+			inv.FunctionSignature.ReturnType = ast.NewBoolType(errors.Span{})
+		case "reg":
+			inv.FunctionSignature.Params[0].Ident = "m"
 		}
 		var res runtime.FunctionInvocationResult
 		panicked, msg := errors.VerifPanics(func() { res = h.vm.SpawnSync(inv, nil, nil) })
@@ -122,6 +135,18 @@ func VerifHarness_HostCalls() {
 			errors.VerifAssert("return-from-inside-loop-and-try", rv.Kind() == vvalue.IntValueKind && rv.(vvalue.ValueInt).Inner == want)
 		case "boom":
 			errors.VerifAssert("result-of-non-throwing-call", rv.Kind() == vvalue.IntValueKind && rv.(vvalue.ValueInt).Inner == a*2)
+		case "dim":
+			// a template method: the singleton is extracted by the callee, the host passes only `percent`
+			changed := dev != a
+			dev = a
+			errors.VerifAssert("singleton-state-persists-between-calls", rv.Kind() == vvalue.BoolValueKind && rv.(vvalue.ValueBool).Inner == changed)
+		case "reg":
+			nTrig++
+			errors.VerifAssert("result-of-call-with-trigger-statement", rv.Kind() == vvalue.IntValueKind && rv.(vvalue.ValueInt).Inner == a+1)
+			errors.VerifAssert("trigger-registered-once-per-call", len(*h.triggers) == nTrig)
+			if len(*h.triggers) == nTrig {
+				errors.VerifAssert("trigger-registered-with-the-call-argument", (*h.triggers)[nTrig-1] == "cb@minute("+fmt.Sprint(a)+")")
+			}
 		case "lst":
 			ok := rv.Kind() == vvalue.ListValueKind
 			if ok {
